@@ -650,6 +650,12 @@ def run_program(env, cfg, prog, record=True, plain=False, fault=None):
             try:
                 if kind == 'add':
                     _, c, key, vals = op
+                    prev = refs.get((c, json.dumps(key)))
+                    if prev is not None and prev in s.new:
+                        # a second pending object with the same primary key: which of the two SQLAlchemy keeps depends
+                        # on set iteration order (not deterministic across processes) - not a meaningful program
+                        outcomes.append('skip')
+                        continue
                     o = classes[c](**pkdict(c, key), **vals)
                     s.add(o)
                     refs[(c, json.dumps(key))] = o
